@@ -68,7 +68,7 @@ class Program:
         def f(k):
             pre = {'req': '', 'opt': '*', 'rep': '[]'}[k.rep]
             if k.excl is not None:
-                return '%s:-%s' % (k.name, k.excl[0])
+                return '%s:-%s%s' % (k.name, k.excl[0], '(json+dash)' if k.excl[1] == 'JSONDASH' else '')
             if k.is_leaf():
                 return '%s:%s%s' % (k.col(), pre, SHORT[k.typ])
             body = ','.join(f(c) for c in k.kids)
@@ -87,6 +87,8 @@ class Program:
                 if k.excl[0] == 'EMBED_UNEXPORTED':
                     return '\t%s' % k.name  # embedded struct whose type name is unexported
                 tag = (' `parquet:"%s"`' % k.excl[1]) if k.excl[1] else ''
+                if k.excl[1] == 'JSONDASH':
+                    tag = ' `json:"secret,omitempty" parquet:"-"`'  # another key before the parquet key
                 return '\t%s %s%s' % (k.name, k.excl[0], tag)
             pre = {'req': '', 'opt': '*', 'rep': '[]'}[k.rep]
             t = k.typ if k.is_leaf() else k.gotype
@@ -641,6 +643,8 @@ def decorate_excluded(base, name, where, idx, mode, gotype):
         ex = F('audit%d%s' % (idx, ''.join(where).lower()), excl=(gotype, None))
     elif mode == 'unexported':
         ex = F('hidden' + str(idx), excl=(gotype, None))
+    elif mode == 'jsondash':
+        ex = F('Secret' + str(idx), excl=(gotype, 'JSONDASH'))
     else:
         ex = F('Skipped' + str(idx), excl=(gotype, '-'))
     tgt.insert(idx, ex)
